@@ -8,7 +8,7 @@ P = {}
 FUNCTIONS_ENCODED = ["Message.to_answer", "MessageHeader.__init__ / flag setters", "__post_init__ of every command class (flag normalisation)",
                      "type_factory of every typed command", "Node._generate_answer", "Application.generate_answer"]
 STUBS = ["node environment stubs (no sockets/threads started; virtual clock) for the generate_answer obligations"]
-ASSUMPTIONS = ["'keeps the proxiable bit' is evaluated against the request object as the API hands it out (typed classes normalise R and P on construction)",
+ASSUMPTIONS = ["'keeps the proxiable bit' is evaluated against the request object at the moment to_answer is called - flags given at construction (normalised by typed classes) or set afterwards",
                "reference pairing is what the command registry's type_factory yields for the same code with R = 0 - not to_answer's own name walk"]
 BOUNDS = {"quick": "every message class (typed request/answer/base, untyped, generic) x all versions, all 256 flag octets, all 24-bit codes (generic classes), all 32-bit application/hop-by-hop/end-to-end ids; generate_answer: Session-Id / Proxy-Info presence symbolic",
           "thorough": "same"}
@@ -42,7 +42,7 @@ def _paired_answer(cls):
     return t
 
 
-def to_answer(ver: int, flags: int, code: int, app: int, hbh: int, e2e: int) -> bool:
+def to_answer(ver: int, flags: int, code: int, app: int, hbh: int, e2e: int, late: bool) -> bool:
     """
     pre: 0 <= ver <= 255 and 0 <= flags <= 255 and 0 <= code <= 0xffffff
     pre: 0 <= app <= 0xffffffff and 0 <= hbh <= 0xffffffff and 0 <= e2e <= 0xffffffff
@@ -50,9 +50,14 @@ def to_answer(ver: int, flags: int, code: int, app: int, hbh: int, e2e: int) -> 
     """
     hx.begin()
     cls = CLASSES[P["cls"]]
-    inputs = (ver, flags, code, app, hbh, e2e)
+    inputs = (ver, flags, code, app, hbh, e2e, late)
     try:
-        req = cls(MessageHeader(ver, 0, flags, code, app, hbh, e2e))
+        if late:
+            # the flag octet is set on the finished request object (e.g. a user clearing the P bit before sending)
+            req = cls(MessageHeader(ver, 0, 0, code, app, hbh, e2e))
+            req.header.command_flags = flags
+        else:
+            req = cls(MessageHeader(ver, 0, flags, code, app, hbh, e2e))
         rh = req.header
         before = (rh.version, rh.length, rh.command_flags, rh.command_code, rh.application_id, rh.hop_by_hop_identifier,
                   rh.end_to_end_identifier, len(req._avps))
@@ -80,6 +85,10 @@ def to_answer(ver: int, flags: int, code: int, app: int, hbh: int, e2e: int) -> 
         okc = type(ans) is cls or (paired is not None and type(ans) is paired)
     if not okc:
         return hx.check(inputs, (tn,), ((paired or Message).__name__,), "answer class is not the command's answer class")
+    if isinstance(ans, DefinedMessage) and type(ans) is not REG.get(getattr(type(ans), "code", -1)) and "c20_typed_answer_forces_p" in P.get("carve", ()):
+        # known finding: typed answer classes force the P bit their ABNF prescribes instead of keeping the request's
+        obs = obs[:5] + (obs[5] - obs[5] % 128 // 64 * 64,) + obs[6:]
+        exp = exp[:5] + (0,) + exp[6:]
     return hx.check(inputs, obs, exp, "answer header: version/code/app/ids copied, P kept, R/E/T cleared")
 
 
@@ -122,13 +131,87 @@ def generate_answer(with_session: bool, with_proxy: bool, via_app: bool, kind: i
         h = ans.header
         sid = getattr(ans, "session_id", None)
         pinfo = getattr(ans, "proxy_info", None)
+        on_wire = sorted(a.code for a in ans.avps if a.code in (263, 264, 296))       # what the encoded answer carries
         obs = (ans.origin_host, ans.origin_realm, sid, bool(pinfo), h.hop_by_hop_identifier, h.end_to_end_identifier, h.command_code,
-               h.is_request, h.is_error, h.is_retransmit, req.header.command_flags == before)
+               h.is_request, h.is_error, h.is_retransmit, req.header.command_flags == before, on_wire)
     except Exception as e:
         return hx.fail(inputs, "raised %s: %s" % (type(e).__name__, str(e)[:80]))
     exp_sid = "sess;1" if with_session else None
-    exp = (B.NODE_HOST.encode(), B.REALM.encode(), exp_sid, bool(with_proxy and k == 0), hbh, 77, req.header.command_code, False, False, False, True)
-    return hx.check(inputs, obs, exp, "generated answer: local Origin-Host/Realm, Session-Id and Proxy-Info copied, header mirrored, R/E/T cleared")
+    exp_wire = ([263] if (with_session and k != 1) else []) + [264, 296]
+    if k == 2 and "c20_untyped_generated_answer_empty" in P.get("carve", ()):
+        exp_wire = []                # known finding: only python attributes on the generic answer
+    exp = (B.NODE_HOST.encode(), B.REALM.encode(), exp_sid, bool(with_proxy and k == 0), hbh, 77, req.header.command_code, False, False, False, True, exp_wire)
+    return hx.check(inputs, obs, exp, "generated answer: local Origin-Host/Realm, Session-Id and Proxy-Info copied (also as encoded), header mirrored, R/E/T cleared")
+
+
+def repro_untyped_generated_answer():
+    """known finding: the answer generated for a request without python answer class is empty on the wire"""
+    from harness import bench as B
+    b = B.Bench(n_peers=1)
+    c, s = b.make_ready(b.peers[0])
+    req = B.Message()
+    req.header.command_code = 999
+    req.header.is_request = True
+    ans = b.node._generate_answer(c, req)
+    ans.result_code = 3007
+    return len(ans.as_bytes()) == 20, "Node._generate_answer for command 999 + result_code encodes %d bytes (header only)" % len(ans.as_bytes())
+
+
+BASE_CMDS = ("CapabilitiesExchangeRequest", "DeviceWatchdogRequest", "DisconnectPeerRequest")     # no Session-Id / Proxy-Info in their ABNF
+
+
+def generate_answer_wire(with_session: bool, with_proxy: bool, via_app: bool, flags: int, hbh: int, e2e: int) -> bool:
+    """
+    pre: 0 <= flags <= 3 and 0 <= hbh <= 0xffffffff and 0 <= e2e <= 0xffffffff
+    post: _
+    """
+    hx.begin()
+    from harness import bench as B
+    from harness.C01 import ref_avp, be
+    cls = CLASSES[P["cls"]]
+    inputs = (with_session, with_proxy, via_app, flags, hbh, e2e)
+    wflags = [0x80, 0xc0, 0xb0, 0xf0][hx.concretize_range(flags, 0, 4)]     # on the wire: R, with/without P, with/without E+T
+    base_cmd = cls.__name__ in BASE_CMDS
+    try:
+        b = B.Bench(n_peers=1)
+        n, app = b.node, b.apps[0]
+        c, s = b.make_ready(b.peers[0])
+        # the request as it arrives: (concrete) wire bytes decoded by the library into the command's request class;
+        # flag octet and identifiers are then made symbolic on the decoded object
+        sid = b"sess;1;2"
+        pinfo = ref_avp(284, 0, 0x40, ref_avp(280, 0, 0x40, b"proxy.realm") + ref_avp(33, 0, 0x40, b"st"))
+        body = b""
+        if with_session and not base_cmd:
+            body += ref_avp(263, 0, 0x40, sid)
+        body += ref_avp(264, 0, 0x40, B.PEER_HOSTS[0].encode()) + ref_avp(296, 0, 0x40, B.REALM.encode()) + ref_avp(283, 0, 0x40, B.REALM.encode())
+        if with_proxy and not base_cmd:
+            body += pinfo
+        code = cls.code
+        wire = bytes([1]) + be(20 + len(body), 3) + bytes([wflags]) + be(code, 3) + be(4, 4) + be(5, 4) + be(77, 4) + body
+        req = B.Message.from_bytes(wire)
+        req.header.hop_by_hop_identifier = hbh
+        req.header.end_to_end_identifier = e2e
+        pbit = req.header.is_proxyable
+        ans = app.generate_answer(req, result_code=2001) if via_app else n._generate_answer(c, req)
+        avps = list(ans.avps)
+        aw = ans.as_bytes()
+        found = lambda cd: [a.payload for a in avps if a.code == cd and a.vendor_id == 0]
+        obs = (type(req).__name__, found(264), found(296), found(263), [a.as_bytes() for a in avps if a.code == 284],
+               aw[4], aw[5:8], aw[12:16], aw[16:20], len(aw) == 20 + sum(len(a.as_bytes()) for a in avps))
+    except Exception as e:
+        return hx.fail(inputs, "raised %s: %s" % (type(e).__name__, str(e)[:80]))
+    exp = (cls.__name__, [B.NODE_HOST.encode()], [B.REALM.encode()], [sid] if (with_session and not base_cmd) else [],
+           [pinfo] if (with_proxy and not base_cmd) else [], 0x40 if pbit else 0, be(code, 3), be(hbh, 4), be(e2e, 4), True)
+    return hx.check(inputs, obs, exp, "answer generated for a received %s, as encoded: local Origin-Host/Realm, Session-Id and Proxy-Info of the request, header mirrored" % cls.__name__)
+
+
+def repro_typed_answer_forces_p():
+    """known finding: the answer of a typed command does not keep a P bit cleared on the request object"""
+    from diameter.message.commands import CreditControlRequest
+    r = CreditControlRequest()
+    r.header.is_proxyable = False
+    a = r.to_answer()
+    return a.header.is_proxyable, "CreditControlRequest with P cleared -> %s with P %s" % (type(a).__name__, a.header.is_proxyable)
 
 
 def to_answer_sequence(flags1: int, flags2: int, order: bool) -> bool:
@@ -174,6 +257,10 @@ def specs(tier, seed, carve):
     for code, pair in sorted(bycode.items()):
         out.append(dict(id="to_answer_sequence/%d" % code, fn="to_answer_sequence", params={"classes": pair}, timeout=120,
                         bound="command %d: the typed base class (as produced by a plain decode) and the typed request answered one after the other in one process, both orders, all flag octets" % code))
+    for name, cls in sorted(CLASSES.items()):
+        if cls.__name__.endswith("Request") and getattr(cls, "code", 0) and REG.get(cls.code) is not None and issubclass(cls, REG[cls.code]):
+            out.append(dict(id="generate_answer_wire/" + name.replace("diameter.message.commands.", ""), fn="generate_answer_wire", params={"cls": name}, timeout=300,
+                            bound="a received %s (decoded from wire bytes with P and E+T set or not; then any hop-by-hop / end-to-end id; Session-Id / Proxy-Info present or not) answered through Node._generate_answer and Application.generate_answer; the answer is observed as encoded" % cls.__name__))
     out.append(dict(id="generate_answer", fn="generate_answer", params={}, timeout=600,
                     bound="Node._generate_answer and Application.generate_answer on a typed application request, a base-protocol request and an untyped request; Session-Id / Proxy-Info presence symbolic; all 256 flag octets; ids from the pool"))
     return out
